@@ -254,3 +254,69 @@ def boundary_values():
     tiny = 5e-324
     eps = 2.220446049250313e-16
     return [0, 0.0, -0.0, tiny, -tiny, eps, -eps, 1, 1.0, 1 - eps / 2, 1 + eps, -1, 2, -2, 0.5, -0.5, 1e-300, -1e-300]
+
+
+def respell(e):
+    """the same tree with every integral constant spelled the other way round (2 <-> 2.0): equal under the
+    library's ==, equal hash, different object and different printed form"""
+    h = e[0]
+    if h == 'C':
+        x = e[1]
+        if isinstance(x, bool):
+            return e
+        if isinstance(x, int) and abs(x) < 2 ** 53:
+            return ('C', float(x))
+        if isinstance(x, float) and x.is_integer() and abs(x) < 2 ** 53:
+            return ('C', int(x))
+        return e
+    if h == 'V':
+        return e
+    return sx.with_children(e, [respell(c) for c in sx.children(e)])
+
+
+def twins(rng, var_pool, budget=5):
+    """expressions in which two different variables sit next to sub-trees that are == but spelled
+    differently (int against float constants): whatever is keyed or deduplicated by expression equality
+    then depends on which of the two is met first"""
+    a, b = rng.sample(var_pool, 2)
+    others = [w for w in var_pool if w not in (a, b)] or [a]
+    for _ in range(20):
+        t = rexpr(rng, budget, others, p_const=0.5)
+        if respell(t) != t:
+            break
+    else:
+        t = ('Add', [('V', others[0]), ('C', 1)])
+    t2 = respell(t)
+    shape = rng.choice(['addmul', 'mulpow', 'minusdiv', 'nested'])
+    if shape == 'addmul':
+        return ('Add', [('Mul', [('V', a), t]), ('Mul', [('V', b), t2])])
+    if shape == 'mulpow':
+        return ('Mul', [('Add', [('V', a), t]), ('Add', [('V', b), t2])])
+    if shape == 'minusdiv':
+        return ('Minus', ('Mul', [t, ('V', a)]), ('Mul', [t2, ('V', b)]))
+    return ('Add', [('Mul', [('V', a), t, ('V', b)]), ('Mul', [('V', b), t2]), ('Mul', [t2, ('V', a)])])
+
+
+def order_sensitive_sum(rng, var_pool):
+    """an n-ary node with repeated (==) operands whose contributions to one variable do not add up to the
+    same double in every order (0.1 + 0.2 + 0.3): any traversal in set order shows in the last bit"""
+    coeffs = [0.1, 0.2, 0.3, 0.7, 1.1, 1e-3, 3.3, 0.6]
+    x = rng.choice(var_pool)
+    terms = []
+    for c in rng.sample(coeffs, rng.randint(3, 5)):
+        shape = rng.random()
+        if shape < 0.5:
+            terms.append(('Mul', [('C', c), ('V', x)]))
+        elif shape < 0.75:
+            terms.append(('Mul', [('V', x), ('C', c)]))
+        else:
+            terms.append(('Sin', ('Mul', [('C', c), ('V', x)])))
+    others = [w for w in var_pool if w != x] or [x]
+    d = rleaf(rng, others, 0.1) if rng.random() < 0.6 else rexpr(rng, 3, others, 0.2)
+    terms += [d] * rng.randint(2, 3)
+    rng.shuffle(terms)
+    head = 'Add' if rng.random() < 0.8 else 'Mul'
+    e = (head, terms)
+    if rng.random() < 0.3:
+        e = rng.choice([('Neg', e), ('Exp', e, 2), ('Mul', [e, ('V', rng.choice(var_pool))])])
+    return e
